@@ -100,7 +100,7 @@ def _c13(fx, col):
 
 
 prop('C13', 'operations are total',
-     [_c13, P.rule_loop_class, A.rule_lock_poison],
+     [_c13, P.rule_loop_class, A.rule_lock_poison, A.rule_lock_no_user_code],
      'Decides: every panic-capable terminator reachable from the API roots under the Hybrid strategies (calls into '
      'core::panicking, Option/Result unwrap/expect, assert!/debug_assert!/unreachable!, compiler-inserted bounds / overflow / '
      'division / pointer checks) is matched by a line-free signature to a discharge, and each discharge is itself a checked '
@@ -109,7 +109,7 @@ prop('C13', 'operations are total',
      'Panics inside std leaves other than the listed entry points; that all other guarantees continue to hold after the wrap beyond re-running every rule on that path.')
 
 
-_ORD_C01 = {'cell-rmw', 'cell-confirm-load', 'debt-fast-publish', 'control-intent', 'head-traverse-load', 'head-publish'}
+_ORD_C01 = {'cell-rmw', 'cell-confirm-load', 'cell-fallback-load', 'debt-fast-publish', 'control-intent', 'head-traverse-load', 'head-publish'}
 
 
 def _ord_c01(fx, col):
@@ -172,7 +172,7 @@ def _usercall_inventory(fx, col):
 
 
 prop('C18', 'panics in user code leave the container consistent',
-     [_usercall_inventory, L.rule_ledger_unwind, T.rule_txn_closed, R.rule_fast_window, R.rule_cover_all, R.rule_pay_before_release, L.rule_bypass, T.rule_writers_raii, A.rule_lock_poison],
+     [_usercall_inventory, L.rule_ledger_unwind, T.rule_txn_closed, R.rule_fast_window, R.rule_cover_all, R.rule_pay_before_release, L.rule_bypass, T.rule_writers_raii, A.rule_lock_poison, A.rule_lock_no_user_code],
      'Decides: the complete list of user-code call sites reachable from the API (trait methods on type parameters, closure '
      'parameters, drops of generic values, RefCnt::dec) and, for each, that no raw (non-RAII) reference count is held '
      'across it: the ledger evaluated along every unwind edge must reach `resume` with balance 0 (LEDGER-UNWIND; direct '
@@ -213,7 +213,7 @@ prop('C11', 'thread churn is safe and bounded',
      'The numeric bound (at most peak-threads nodes) and exclusivity of a node under all interleavings are NOT decided; the rules are the code-shape reasons for both.')
 
 
-_ORD_SEQ = {'cell-rmw', 'cell-confirm-load', 'debt-fast-publish', 'control-intent', 'control-confirm', 'head-traverse-load', 'head-publish'}
+_ORD_SEQ = {'cell-rmw', 'cell-confirm-load', 'cell-fallback-load', 'debt-fast-publish', 'control-intent', 'control-confirm', 'head-traverse-load', 'head-publish'}
 
 
 def _ord_seq(fx, col):
@@ -241,7 +241,7 @@ prop('C03', 'loads are linearizable (provenance clause)',
      'Linearizability, real-time order and per-thread monotonicity over histories are NOT decided (properties of executions).')
 
 def _ord_c04(fx, col):
-    O.rule_ord_with_floors(fx, col, only_roles={'cell-rmw', 'debt-payback'})
+    O.rule_ord_with_floors(fx, col, only_roles={'cell-rmw', 'debt-payback', 'debt-payback-fail'})
 
 
 prop('C04', 'writes totally ordered, each old value handed back once',
